@@ -48,6 +48,11 @@ def specs(tier, seed):
     add("GrandCanonical", "M", [["e", "E_transrot"], ["d", "D_rot"]], calc="zero", T=800.0, mu=-0.2)
     add("GrandCanonical", "A3", [["e", "E_trans*2"]], calc="zero", T=800.0, mu=-0.3)
     add("GrandCanonical", "A3", [["x", "D_ball+E_trans", 1.0, "gc"]], calc="zero", T=800.0, mu=-0.3)
+    # cell moves whose flags differ from one another (scale_atoms off, constraints on)
+    add("Isobaric", "T3", [["c", "C_aniso_ns"], ["d", "D_ball"]])
+    # particle-conserving relocation with a constraint indexed after the exchangeable atoms
+    add("GrandCanonical", "A3", [["x", "G[E0_trans,E1_trans]", 1.0, "gc"], ["e", "E_trans"]], calc="zero", T=800.0, mu=-0.3, labels=[0, 1, -1], decos=["fix:2"])
+    add("GrandCanonical", "A3", [["x", "G[E0_trans,E1_trans]", 1.0, "gc"], ["e", "E0_trans"], ["d", "D_ball"]], T=800.0, mu=-0.3, labels=[0, 1, -1], decos=["fix:2", "tags"])
     # settings a user changes after construction: label for new atoms, accessible volume
     add("GrandCanonical", "A3", [["e", "E_trans"], ["d", "D_ball"]], calc="zero", T=800.0, mu=-0.25, user_settings={"default_label": 0, "accessible_volume": 90.0})
     add("GrandCanonical", "A3", [["e", "E_trans"]], calc="zero", T=800.0, mu=-0.3, user_settings={"default_label": -1, "accessible_volume": 400.0})
